@@ -5,6 +5,10 @@
      3 SendMsg waiting for flow-control / write quota       select { s.ctx.Done, wq.ch, done }
      4 ClientStream.Header() waiting for the server header  select { s.ctx.Done, headerChan }
      5 RecvMsg waiting for data (recvBufferReader.read)     select { ctxDone, recv.get() }
+     6 a unary RPC waiting for the rest of a message's payload after its 5-byte prefix
+       (recvBufferReader.readClient)                        select { ctxDone, recv.get() }
+       - unary RPCs have no context-watcher goroutine, this select is their only exit; it closes
+       the stream, which sends RST_STREAM(CANCEL) to the peer
    - each is a select that includes the RPC's context, so a done context enables the exit,
    and the error is mapped by ContextErr / toRPCErr: DeadlineExceeded -> DEADLINE_EXCEEDED (4),
    Canceled -> CANCELLED (1).
@@ -27,7 +31,10 @@ Definition status_of (kind : Z) : Z := if kind =? 2 then 4 else 1.
 (* does an RPC blocked at this point have a stream on the server? *)
 Definition reaches_server (point : Z) : bool := (3 <=? point) && (point <=? 5).
 
-Definition valid_point (point : Z) : bool := (1 <=? point) && (point <=? 5).
+Definition valid_point (point : Z) : bool := (1 <=? point) && (point <=? 6).
+
+(* is the peer told (handler context cancelled / RST_STREAM received by the raw peer of point 6)? *)
+Definition peer_told (point : Z) : bool := reaches_server point || (point =? 6).
 
 (* the deadline the server handler sees, relative to the arrival of the request, for a
    client whose remaining time at send is d nanoseconds *)
@@ -37,7 +44,8 @@ Definition server_timeout (d : Z) : Z := match decode (encode d) with Some v => 
    application cancels after t ns (t < d), kind 2: nothing else happens (the deadline passes)
    obs [status code; ns between the context becoming done and the blocked call returning;
         1 iff a handler ran; handler deadline minus client deadline in ns; 1 iff the handler's
-        context was cancelled once the client was done] *)
+        context was cancelled once the client was done (point 6, whose peer is a scripted raw
+        HTTP/2 endpoint and not a grpc server: 1 iff that peer received RST_STREAM for the RPC)] *)
 Definition op_ok (op : word) : bool :=
   match op with
   | [point; kind; t; d] => valid_point point && ((kind =? 1) || (kind =? 2)) && (0 <? t) && (t <? d) && (d <=? max_i64)
@@ -49,7 +57,7 @@ Definition run_op (op : word) : option word :=
   | [point; kind; t; d] =>
     if op_ok op then
       Some (if reaches_server point then [status_of kind; 0; 1; server_timeout d - d; 1]
-            else [status_of kind; 0; 0; 0; 0])
+            else [status_of kind; 0; 0; 0; b2z (peer_told point)])
     else None
   | _ => None
   end.
@@ -68,15 +76,18 @@ Definition run (cfg : word) (ops : list word) : option (list word) := run_ops op
    1 the client call ends with DEADLINE_EXCEEDED when the deadline passed, CANCELLED when the
      application cancelled
    2 it ends within a bounded time of the context becoming done (virtual time: at most 1 ms)
-   3 the handler's deadline is no earlier than the client's (and less than one hour later)
-   4 the handler's context is cancelled when the client cancels or the deadline passes *)
+   3 an RPC blocked after its request went out (points 3-5) was given to a handler, and the
+     handler's deadline is no earlier than the client's (and less than one hour later)
+   4 the handler's context is cancelled when the client cancels or the deadline passes (point 6:
+     the raw peer received RST_STREAM, which is what cancels a server's handler) *)
 Definition clause_op (op obs : word) : list (Z * Z * bool) :=
   match op, obs with
   | [point; kind; t; d], [code; lat; reached; delta; hcan] =>
     [(1, code, code =? status_of kind);
      (2, lat, (0 <=? lat) && (lat <=? 1000000));
-     (3, delta, if reached =? 1 then (0 <=? delta) && (delta <? ns_hour) else true);
-     (4, hcan, if reached =? 1 then hcan =? 1 else true)]
+     (3, delta, if reaches_server point || (reached =? 1)
+                then (reached =? 1) && (0 <=? delta) && (delta <? ns_hour) else true);
+     (4, hcan, if peer_told point || (reached =? 1) then hcan =? 1 else true)]
   | _, _ => [(0, 0, false)]
   end.
 
